@@ -111,6 +111,10 @@ func (p *mutexProvider) ReleaseZlibWriter(w *zlib.Writer) {
 	p.mu.Unlock()
 }
 
+// c13Abort is set when a storm did not reach quiescence: goroutines of that storm may still run, the package-wide
+// provider must not be swapped under them and nothing observed afterwards can be judged. The workload stops.
+var c13Abort int32
+
 func c13Provider(name string) restful.CompressorProvider {
 	switch name {
 	case "bounded0":
@@ -240,7 +244,8 @@ func directStorm(ctx *core.Ctx, ci int, provName string, g int, coding string) {
 	done := make(chan struct{})
 	go func() { wg.Wait(); close(done) }()
 	doc := map[string]interface{}{"provider": provName, "goroutines": g, "coding": coding, "kind": "direct"}
-	if blocked, timedOut := mon.WaitQuiescent(done, 8*time.Second); timedOut {
+	if blocked, timedOut := mon.WaitQuiescent(done, 45*time.Second); timedOut {
+		atomic.StoreInt32(&c13Abort, 1)
 		if len(blocked) > 0 {
 			doc["blocked"] = blocked
 			ctx.Violation(ci, "c13:release-blocks:direct:"+provName, fmt.Sprintf("%d goroutine(s) parked forever in %s while releasing (everyone else has finished)", len(blocked), blocked[0].Frame), doc)
@@ -451,7 +456,8 @@ func frameworkStorm(ctx *core.Ctx, ci int, provName string, inflight int, entry 
 	go func() { wg.Wait(); close(done) }()
 	where := fmt.Sprintf("%s:%s:%s", entry, mode, provName)
 	doc := map[string]interface{}{"provider": provName, "in_flight": inflight, "entry": entry, "mode": mode, "kind": "framework"}
-	if blocked, timedOut := mon.WaitQuiescent(done, 10*time.Second); timedOut {
+	if blocked, timedOut := mon.WaitQuiescent(done, 45*time.Second); timedOut {
+		atomic.StoreInt32(&c13Abort, 1)
 		if len(blocked) > 0 {
 			doc["blocked"] = blocked
 			ctx.Violation(ci, "c13:release-blocks:"+where, fmt.Sprintf("%d request(s) parked forever in %s (inside the deferred Close of their response)", len(blocked), blocked[0].Frame), doc)
@@ -552,7 +558,8 @@ func directChurn(ctx *core.Ctx, ci int, provName string, g, n int) {
 	done := make(chan struct{})
 	go func() { wg.Wait(); close(done) }()
 	doc := map[string]interface{}{"provider": provName, "goroutines": g, "iterations": n, "kind": "direct-churn"}
-	if blocked, timedOut := mon.WaitQuiescent(done, 20*time.Second); timedOut {
+	if blocked, timedOut := mon.WaitQuiescent(done, 60*time.Second); timedOut {
+		atomic.StoreInt32(&c13Abort, 1)
 		if len(blocked) > 0 {
 			doc["blocked"] = blocked
 			ctx.Violation(ci, "c13:release-blocks:churn:"+provName, fmt.Sprintf("%d goroutine(s) parked forever in %s", len(blocked), blocked[0].Frame), doc)
@@ -610,7 +617,8 @@ func frameworkChurn(ctx *core.Ctx, ci int, provName string, g, n int, entry stri
 	go func() { wg.Wait(); close(done) }()
 	where := "churn:" + entry + ":" + provName
 	doc := map[string]interface{}{"provider": provName, "goroutines": g, "requests_each": n, "entry": entry, "kind": "framework-churn"}
-	if blocked, timedOut := mon.WaitQuiescent(done, 20*time.Second); timedOut {
+	if blocked, timedOut := mon.WaitQuiescent(done, 60*time.Second); timedOut {
+		atomic.StoreInt32(&c13Abort, 1)
 		if len(blocked) > 0 {
 			doc["blocked"] = blocked
 			ctx.Violation(ci, "c13:release-blocks:"+where, fmt.Sprintf("%d request(s) parked forever in %s", len(blocked), blocked[0].Frame), doc)
@@ -659,10 +667,11 @@ func secondClose(ctx *core.Ctx, ci int, provName, coding string) {
 
 func c13(ctx *core.Ctx) {
 	quietLogs()
+	atomic.StoreInt32(&c13Abort, 0)
 	ctx.Rule("providers {sync.Pool, bounded cache capacity 0/1/2/8, custom mutex free-list} behind an instrumenting provider (ledger + trip-wire + history). (A) direct storms: g in {2,4,8} goroutines acquire, use and close a writer, then release together through a spin barrier. (B) storms through Dispatch/ServeHTTP with in-flight in {1,2,capacity,capacity+1,16,64} requests all held inside the handler at once, modes {normal (release barrier inside the compressor flush), failing underlying writer, panicking handler with recovery, gzip request bodies via ReadEntity read in 7-byte slices, broken request bodies, handler hijacking the connection}; churn: goroutines acquire/use/release (directly and through Dispatch/ServeHTTP) back to back without barriers, so that acquires overlap releases. (C) second Close. Oracle: no object handed out while held, each acquired object released exactly once, no write through a released writer, every response/request body decodes to its own payload, nobody parked forever in Release/Close (goroutine state), per-object acquire/release history linearizable against a mutex (porcupine). Race detector on. Non-trivial = a storm with >= 2 holders; distinct by (kind, provider, holders, entry, mode, coding).")
 	ctx.Assume("the ledger adds after the inner acquire and removes before the inner release: it cannot false-alarm on provider-internal ordering")
 	defer restful.SetCompressorProvider(restful.NewSyncPoolCompessors())
-	direct := ctx.N(240, 20000)
+	direct := ctx.N(180, 6000)
 	ci := 0
 	for i := 0; i < direct; i++ {
 		ci++
@@ -676,17 +685,20 @@ func c13(ctx *core.Ctx) {
 			ctx.Case(ci, fmt.Sprintf("direct provider=%s g=%d coding=%s", prov, g, coding))
 		}
 		directStorm(ctx, ci, prov, g, coding)
-		if ctx.Violations() > 20 {
+		if ctx.Violations() > 20 || atomic.LoadInt32(&c13Abort) != 0 {
 			return
 		}
 	}
-	churnReps := ctx.N(1, 30)
+	churnReps := ctx.N(1, 10)
 	for rep := 0; rep < churnReps; rep++ {
 		for pi, prov := range c13Providers {
 			ci++
 			if !ctx.Skip(ci) {
 				ctx.Case(ci, "direct churn provider="+prov)
-				directChurn(ctx, ci, prov, 12, ctx.N(150, 400))
+				directChurn(ctx, ci, prov, 8, ctx.N(100, 300))
+				if atomic.LoadInt32(&c13Abort) != 0 {
+					return
+				}
 			}
 			ci++
 			if !ctx.Skip(ci) {
@@ -695,15 +707,15 @@ func c13(ctx *core.Ctx) {
 					entry = rt.ServeHTTP
 				}
 				ctx.Case(ci, "framework churn provider="+prov+" entry="+entry)
-				frameworkChurn(ctx, ci, prov, 12, ctx.N(60, 200), entry)
+				frameworkChurn(ctx, ci, prov, 8, ctx.N(40, 150), entry)
 			}
-			if ctx.Violations() > 20 {
+			if ctx.Violations() > 20 || atomic.LoadInt32(&c13Abort) != 0 {
 				return
 			}
 		}
 	}
 	modes := []string{"normal", "failing-writer", "panic", "request-bodies", "broken-bodies", "hijack"}
-	reps := ctx.N(1, 40)
+	reps := ctx.N(1, 12)
 	for rep := 0; rep < reps; rep++ {
 		for _, prov := range c13Providers {
 			capacity := map[string]int{"bounded0": 0, "bounded1": 1, "bounded2": 2, "bounded8": 8}[prov]
@@ -726,14 +738,14 @@ func c13(ctx *core.Ctx) {
 					}
 					ctx.Case(ci, fmt.Sprintf("framework provider=%s in_flight=%d entry=%s mode=%s", prov, n, entry, mode))
 					frameworkStorm(ctx, ci, prov, n, entry, mode)
-					if ctx.Violations() > 20 {
+					if ctx.Violations() > 20 || atomic.LoadInt32(&c13Abort) != 0 {
 						return
 					}
 				}
 			}
 			for _, coding := range []string{"gzip", "deflate"} {
 				ci++
-				if !ctx.Skip(ci) {
+				if !ctx.Skip(ci) && atomic.LoadInt32(&c13Abort) == 0 {
 					secondClose(ctx, ci, prov, coding)
 				}
 			}
